@@ -63,6 +63,10 @@ def handleApi (toks : List String) : Option String :=
     let y ← int? y; let m ← int? m; let d ← int? d
     let t : Out IsoTime ← (if rest == ["-"] then some (.ok ⟨0, 0, 0, 0, 0, 0⟩) else time6? rest)
     some ((do let dd ← plainDateTryNew y m d; let t ← t; IsoDateTime.new dd t : Out IsoDateTime).render IsoDateTime.render)
+  | "pdt_from_dat" :: y :: m :: d :: rest => do
+    let y ← int? y; let m ← int? m; let d ← int? d
+    let t ← time6? rest
+    some ((do let dd ← plainDateTryNew y m d; let t ← t; IsoDateTime.new dd t : Out IsoDateTime).render IsoDateTime.render)
   | ["pdt_from_pd", y, m, d] => do
     let y ← int? y; let m ← int? m; let d ← int? d
     -- `From<PlainDate>`: midnight of the date, unchecked; `valid` = the checked constructor accepts the value
